@@ -19,45 +19,9 @@ import (
 
 func init() { fw.Register("C10D", runC10D) }
 
-// The three decoders known (and expected to be re-discovered) to size an
-// allocation from an unchecked length: inputs whose unchecked length lies between
-// 4 MiB and 2^50 would make the harness itself allocate gigabytes or die with a
-// fatal out-of-memory error, so they are skipped; lengths above 2^50 panic in
-// makeslice (recoverable) and are what exposes the defect.
-func c10UncheckedLen(goName string, b []byte) (uint64, bool) {
-	u64 := func(off uint64) (uint64, bool) {
-		if off > uint64(len(b)) || uint64(len(b))-off < 8 {
-			return 0, false
-		}
-		return binary.LittleEndian.Uint64(b[off:]), true
-	}
-	switch goName {
-	case "rhp3.RPCExecuteProgramRequest":
-		return u64(32) // FileContractID, then the instruction count
-	case "rhp3.RPCExecuteProgramResponse":
-		k, ok := u64(0) // V1Currency length prefix
-		if !ok || k > 16 {
-			return 0, false
-		}
-		return u64(8 + k) // OutputLength
-	case "rhp2.RPCReadResponse":
-		m, ok := u64(0) // signature prefix
-		if !ok || m > uint64(len(b))-8 {
-			return 0, false
-		}
-		return u64(8 + m) // dataLen
-	}
-	return 0, false
-}
-
-func c10Skip(goName string, b []byte) bool {
-	n, ok := c10UncheckedLen(goName, b)
-	return ok && n > 1<<22 && n < 1<<50
-}
-
 func runC10D(c *fw.Ctx) {
 	res := c.Res
-	res.Rule = "malformed byte streams into every decoder of types, consensus, gateway, rhp/v2, rhp/v3, rhp/v4 (one entry per type with an encoder/decoder pair): random bytes of length 0..300; a valid encoding with 8 bytes at EVERY offset (up to 320) overwritten by len+1, 2^32, 2^60, 2^63, 2^64-1 (length-prefix inflation); random bit flips; valid encoding + garbage; truncation + garbage. Each decode runs under recover with a wall-clock check; outcome must be value-or-error. A case is non-trivial when the input is non-empty; distinct by (type, bytes). For types with a generated schema a sample is decoded by the Lean model too (ok+re-encoding / err / panic must agree)."
+	res.Rule = "malformed byte streams into every decoder of types, consensus, gateway, rhp/v2, rhp/v3, rhp/v4 (one entry per type with an encoder/decoder pair): random bytes of length 0..300; a valid encoding with 8 bytes at EVERY offset (up to 320) overwritten by 2^60, 2^63, 2^64-1, len+1, 2^40, 2^32 (length-prefix inflation); random bit flips; valid encoding + garbage; truncation + garbage. Each decode runs under recover with a wall-clock check; outcome must be value-or-error. A case is non-trivial when the input is non-empty; distinct by (type, bytes). For types with a generated schema a sample is decoded by the Lean model too (ok+re-encoding / err / panic must agree)."
 	ts := c11Types()
 	if c.Replay != "" {
 		c11Replay(c, ts)
@@ -72,9 +36,13 @@ func runC10D(c *fw.Ctx) {
 		modelled := known[ct.lean]
 		sampleEvery := 1
 		cases := 0
+		panicked := false
 		try := func(kind string, in []byte) {
-			if c10Skip(ct.goName, in) {
-				res.Count("skipped:would-allocate-gigabytes")
+			if panicked {
+				// this decoder already panicked on untrusted input (violation recorded): do
+				// not feed it further lengths, a decoder that allocates from the wire could
+				// take the harness down with a fatal out-of-memory error
+				res.Count("skipped:decoder-already-panicked")
 				return
 			}
 			o := c11Decode(ct, in)
@@ -83,6 +51,7 @@ func runC10D(c *fw.Ctx) {
 			cases++
 			switch {
 			case o.panicked:
+				panicked = true
 				res.Count("outcome:panic")
 				res.Violate(fw.Violation{Key: "c10-decode-panic:" + ct.goName,
 					What:     fmt.Sprintf("decoding %d untrusted bytes as %s panics: %s", len(in), ct.goName, o.panicMsg),
@@ -129,7 +98,7 @@ func runC10D(c *fw.Ctx) {
 				lim = 320
 			}
 			for off := 0; off <= lim; off++ {
-				for _, val := range []uint64{uint64(len(b)-off-8) + 1, 1 << 32, 1 << 60, 1 << 63, ^uint64(0)} {
+				for _, val := range []uint64{1 << 60, 1 << 63, ^uint64(0), uint64(len(b)-off-8) + 1, 1 << 40, 1 << 32} {
 					m := append([]byte(nil), b...)
 					binary.LittleEndian.PutUint64(m[off:], val)
 					try("inflate", m)
